@@ -108,3 +108,36 @@ Theorem C03_small_collection_exec_outcome_discipline : forall log2 s sp o s' r e
   (r = ObsNull \/ r = ObsThrow -> exists sp', SCPR s' sp' /\ allocations_kept sp sp').
 Proof. exact scoll_outcome_discipline. Qed.
 Print Assumptions C03_small_collection_exec_outcome_discipline.
+
+(* progress of the Exec collection over the intrusive list (memory_pool_collection<node_pool, ...> without the double-free check):
+   in every state a history of node requests and releases can reach from a constructed collection, allocate_node and
+   try_allocate_node of any supported size are described by the model -- none of the implementation's internal assertions
+   (a reservation that does not fit into a fresh block, a list left without a node after growth, a null from the list) can be
+   reached -- whatever the block source answers (fresh aligned blocks of the size asked for, below 2^64) and wherever it fails.
+   UExt: what the constructor establishes beyond the relation (the largest list gets a node out of a default reservation, every
+   supported size has its list, the next block is at least as large as the current one) *)
+Theorem C03_collection_exec_allocate_node_always_described : forall log2 s sp size answer, UCPR s sp -> UExt log2 s -> 0 < size <= cc_max _ s ->
+  (forall addr, answer = Some addr -> CWB sp addr (ar_next (cc_ar _ s))) -> ar_next (cc_ar _ s) < 2^64 ->
+  exists s' r evs, uc_step log2 s (CAllocNode size answer) = Some (s', r, evs) /\ UExt log2 s'.
+Proof. exact ucoll_alloc_node_progress. Qed.
+Print Assumptions C03_collection_exec_allocate_node_always_described.
+
+Theorem C03_collection_exec_try_allocate_node_always_described : forall log2 s sp size, UCPR s sp -> UExt log2 s -> 0 < size <= cc_max _ s ->
+  exists s' r evs, uc_step log2 s (CTryAllocNode size) = Some (s', r, evs) /\ UExt log2 s'.
+Proof. exact ucoll_try_alloc_node_progress. Qed.
+Print Assumptions C03_collection_exec_try_allocate_node_always_described.
+
+Theorem C03_collection_exec_node_histories_never_stuck : forall log2 os s sp, UCPR s sp -> UExt log2 s -> unode_history_ok log2 s sp os ->
+  exists s' tr sp', uc_run log2 s os = Some (s', tr) /\ PoolSpecProofs.run sp tr = Some sp' /\ UCPR s' sp' /\ UExt log2 s'.
+Proof. exact ucoll_node_history_progress. Qed.
+Print Assumptions C03_collection_exec_node_histories_never_stuck.
+
+Theorem C03_collection_exec_constructor_establishes_progress_invariant : forall log2 k fence max bs answer s evs,
+  uc_construct log2 k fence max bs answer = Some (s, true, evs) -> bucket_table_okb log2 max = true -> 0 <= bs < 2^64 -> 0 <= fence -> UExt log2 s.
+Proof. exact uc_construct_ext. Qed.
+Print Assumptions C03_collection_exec_constructor_establishes_progress_invariant.
+
+(* the premise about the bucket table holds for every max_node_size up to 128, both policies *)
+Theorem C03_collection_bucket_table_ok : forall log2 max, 1 <= max <= 128 -> bucket_table_okb log2 max = true.
+Proof. exact bucket_table_ok_upto_128. Qed.
+Print Assumptions C03_collection_bucket_table_ok.
